@@ -28,11 +28,19 @@ add_picture(no size) per image on one deck per (format, dpi) row, sizes read fro
 saved slide, oracle as above (exact). Thorough: extents 1..256, plus EVERY integer resolution 1..2048 (JPEG stores it
 exactly) x extents 1..64. A violation names the smallest failing pixel extent of the row.
 
-E2c (state of the file-like object at hand-over).  formats x cursor position {end = just written, 8 = signature
-sniffed, 1, half, last byte; 0 is E2} x {BytesIO, open file object} x entry point {add_picture, insert_picture,
-add_movie poster frame, add_ole_object icon}; the SAME object is handed over twice per case (second time: cursor
-wherever the library left it). Oracle: one image part holding the whole content of the stream with the type of its
-real format, blob of both shapes == content, saved blips resolve to it.
+E2c (the file-like object at hand-over: its kind, its state, the size of its content).  formats x (kind, cursor)
+x content {small = 5x3 px, big = > 160 KiB of incompressible pixels, i.e. many I/O buffers} x entry point {add_picture,
+insert_picture, add_movie poster frame, add_ole_object icon}; the SAME object is handed over twice per case (second
+time: in whatever state the library left it). Kinds (FILE_LIKES): io.BytesIO; file opened "rb"; file opened "w+b"
+into which the image has just been written in 1000-byte pieces and NOT flushed (the disk holds nothing or a
+truncated copy - asserted, else the case would be vacuous); the same, flushed; a file that holds ANOTHER image,
+opened "r+b" and overwritten, not flushed; tempfile.NamedTemporaryFile written not flushed / flushed;
+tempfile.SpooledTemporaryFile (in memory for small, rolled over to an unnamed file for big); a BytesIO whose .name
+is the path of an existing image file of a different format; an object with read/seek/tell and nothing else. Cursor
+positions {0, end = just written, 8 = signature sniffed, 1, half, last byte} for every kind that can have them (a
+written-not-flushed object is necessarily at the end: a seek would flush it). Oracle: one image part holding the
+whole content of the stream (= what the object itself returns when read from position 0, verified on the object
+after the calls) with the type of its real format, blob of both shapes == content, saved blips resolve to it.
 
 E2d (bytes already stored in a deck the library did not write).  Every corpus deck that holds image parts x every
 distinct image in it x {stream, path} x {deck as opened, deck first saved + re-opened}: the image's own bytes are
@@ -61,8 +69,8 @@ and icon images the library supplies itself, captured as the bytes the library r
     the bytes it was created from, and in the saved zip the a:blip r:embed of that shape resolves (own rels reader)
     to a part with those bytes.
 
-Bounds: quick = E2, E2b (4 x 18 x 128 = 9216), E2c (5 x 5 x 2 x 4 = 200 cases, 2 calls each), E2d (all (corpus deck,
-image) pairs x 4, 3 additions each) + BFS depth 3 over all 13 operations; thorough = E2 with more sizes, dpi
+Bounds: quick = E2, E2b (4 x 18 x 128 = 9216), E2c (5 formats x 45 (kind, cursor) pairs x 2 content sizes x 4 entry
+points = 1800 cases, 2 calls each), E2d (all (corpus deck, image) pairs x 4, 3 additions each) + BFS depth 3 over all 13 operations; thorough = E2 with more sizes, dpi
 requests, misleading names and size arguments (see _space/_wh_list), E2b with extents 1..256 and every integer dpi
 1..2048 + BFS depth 3 over all 13 operations + BFS depth 4 over a 10-operation sub-alphabet (SUB). All E2 families
 assert evaluations == closed-form size.
@@ -99,8 +107,8 @@ RULE = ("E2: every (format, pixel size, dpi request, hand-over variant) x 4 (wid
         "add_picture evaluation each; non-trivial/distinct = distinct (sha1 of image bytes, hand-over variant, "
         "size-argument combination). E2b: every (format, dpi of DPI_SWEEP, pixel extent 1..N) - one add_picture "
         "without a size each, distinct by construction; a (format, dpi) row reports its smallest failing extent. "
-        "E2c: every (format, cursor position != 0, kind of file-like, entry point), the same object handed over "
-        "twice. E2d: every (corpus deck holding images, distinct image in it, stream|path, as opened|re-opened "
+        "E2c: every (format, kind of file-like object, cursor position admissible for the kind, small|big content, "
+        "entry point), the same object handed over twice; distinct by construction. E2d: every (corpus deck holding images, distinct image in it, stream|path, as opened|re-opened "
         "first), three additions of the image's own bytes with a save and a re-open in between. E1: BFS over operation histories (replay mode) from 3 initial decks, oracle "
         "in every state; a state is non-trivial when its history has >= 2 operations of which at least one hands "
         "over an image; distinct = distinct canonical states (saved-package digest + populated lazy caches + "
@@ -113,9 +121,13 @@ ASSUMPTIONS = [
     "additionally every integer dpi 1..2048 at extents 1..64; larger images and other resolutions are covered only "
     "by the few sizes of the E2 alphabet. The expected size is exact rational arithmetic; a fractional EMU may go "
     "either way",
-    "file-like objects: io.BytesIO and a binary file object, both seekable; 'the image' of a stream is its whole "
-    "content wherever the cursor is (python-pptx documents and implements a rewind); non-seekable streams are not "
-    "explored",
+    "file-like objects: the ten kinds of FILE_LIKES (BytesIO, file 'rb', file 'w+b' written unflushed/flushed, file "
+    "'r+b' overwritten unflushed, NamedTemporaryFile unflushed/flushed, SpooledTemporaryFile, BytesIO with a .name "
+    "pointing at a different image file, bare read/seek/tell object), all seekable; 'the image' of a stream is its "
+    "whole content - what the object returns when read from position 0 - wherever the cursor is and whatever has "
+    "reached the disk (python-pptx documents and implements a rewind); content sizes 5x3 px and one > 160 KiB image "
+    "per format written in 1000-byte pieces; non-seekable streams, objects without seek(), text-mode files, "
+    "path-like (non-str) objects and streams modified concurrently are not explored",
     "decks not written by the library: exactly the image-holding decks of the repository corpus (PowerPoint-authored); "
     "content-type spellings that do not occur there are not explored",
     "the generator's REQUEST is the truth about an image's format; the stored resolution is read by the hand-written "
@@ -630,56 +642,212 @@ def _sweep_worker(part, chunk):
 
 
 # =====================================================================================================
-# E2c: the state of the file-like object at hand-over (cursor not at 0; the same object handed over twice)
+# E2c: the file-like object at hand-over - its KIND, its state (cursor, unflushed writes), the size of its content
 # =====================================================================================================
 # "From a stream" in practice means a buffer the caller has just WRITTEN (Pillow/matplotlib save(buf): cursor at the
-# end) or has partly READ (signature sniff, PIL.Image.open(buf).size). The image is the content of the stream, not
-# what lies behind the cursor. Space: format x cursor position x kind of file-like x API entry point; every case
-# hands the SAME object over twice (the second time the cursor is wherever the library left it).
-CURSORS = ["end", "sig8", "one", "half", "last"]       # cursor 0 is the main E2 space
-STREAM_KINDS = ["bytesio", "fileobj"]
+# end) or has partly READ (signature sniff, PIL.Image.open(buf).size) - and the buffer is whatever file-like object
+# the caller had at hand: an in-memory stream, a file opened for reading, a file or temporary file opened for
+# read/write that the image has just been written into (not flushed: part or all of it exists only in the object's
+# buffer, the file on disk is shorter, empty, or still holds what it held before), a spooled temporary file, an
+# object that carries a .name which is NOT where its content lives, or the bare read/seek/tell protocol. The image
+# is the CONTENT OF THE STREAM (what it returns when read from position 0), not what lies behind the cursor, not
+# what a path found on the object holds, not what has reached the disk so far.
+# Space: format x (kind, state) x content size x API entry point; every case hands the SAME object over twice (the
+# second time in whatever state the library left it). A written-not-flushed object can only have its cursor at the
+# end (any seek flushes it), so (kind, state) is the list FILE_LIKES below rather than a full product.
+CURSORS = ["end", "sig8", "one", "half", "last"]
+ALL_CURSORS = ["start"] + CURSORS
+PLAIN_KINDS = ("bytesio", "file-rb")        # their signatures carry no file-like= attribute (a cursor defect shows here)
+FILE_LIKES = [
+    # kind                               admissible cursor positions
+    ("bytesio",                          ALL_CURSORS),   # io.BytesIO, written then (unless 'end') re-read up to the cursor
+    ("file-rb",                          ALL_CURSORS),   # open(path, "rb") of a file holding the image
+    ("file-w+b-unflushed",               ["end"]),       # open(path, "w+b"), image written in 1000-byte pieces, no flush
+    ("file-w+b-flushed",                 ALL_CURSORS),   # the same + flush(), then (unless 'end') re-read up to the cursor
+    ("file-r+b-overwritten-unflushed",   ["end"]),       # the file holds ANOTHER (shorter) image of the format; open "r+b",
+                                                         # the image written over it in pieces, no flush
+    ("tempfile-unflushed",               ["end"]),       # tempfile.NamedTemporaryFile, written in pieces, no flush
+    ("tempfile-flushed",                 ALL_CURSORS),
+    ("spooled",                          ALL_CURSORS),   # tempfile.SpooledTemporaryFile(max_size=4096): small content stays in
+                                                         # memory, big content has rolled over to an unnamed file (unflushed
+                                                         # when the cursor is at the end)
+    ("misnamed-bytesio",                 ALL_CURSORS),   # BytesIO carrying .name = path of an existing image file of ANOTHER
+                                                         # format and other bytes
+    ("minimal",                          ALL_CURSORS),   # an object with read/seek/tell and nothing else
+]
+UNFLUSHED_KINDS = ("file-w+b-unflushed", "file-r+b-overwritten-unflushed", "tempfile-unflushed")
+STREAM_KINDS = [k for k, _ in FILE_LIKES]
 STREAM_APIS = ["add_picture", "insert_picture", "add_movie_poster", "add_ole_icon"]
+CONTENTS = ["small", "big"]     # small: 5 x 3 px, fits any I/O buffer; big: > BIG_MIN bytes, many I/O buffers
+BIG_MIN = 160 * 1024            # io.DEFAULT_BUFFER_SIZE is 8 KiB, open() uses st_blksize; newer CPythons use up to 128 KiB
+BIG_PX = {"PNG": (320, 240), "JPEG": (512, 384), "GIF": (480, 360), "BMP": (320, 240), "TIFF": (320, 240)}
+PIECE = 1000                    # the writer hands the image over in pieces of this many bytes (as encoders do)
+SPOOL_MAX = 4096
 
 
 def _cursor_space():
-    return [{"kind": "e2s", "fmt": fmt, "cursor": c, "stream": k, "api": a}
-            for fmt in FORMATS for c in CURSORS for k in STREAM_KINDS for a in STREAM_APIS]
+    return [{"kind": "e2s", "fmt": fmt, "cursor": c, "stream": k, "api": a, "content": sz}
+            for fmt in FORMATS for k, cursors in FILE_LIKES for c in cursors for sz in CONTENTS for a in STREAM_APIS]
+
+
+def _cursor_closed_form():
+    return len(FORMATS) * sum(len(c) for _, c in FILE_LIKES) * len(CONTENTS) * len(STREAM_APIS)
 
 
 def _cursor_pos(label, n):
-    return {"end": n, "sig8": 8, "one": 1, "half": n // 2, "last": n - 1}[label]
+    return {"start": 0, "end": n, "sig8": 8, "one": 1, "half": n // 2, "last": n - 1}[label]
+
+
+_BIG = {}
+
+
+def _big_image(fmt):
+    """Deterministic image of > BIG_MIN bytes: incompressible pixels (SHAKE-256 stream of a fixed seed) written by
+    Pillow at 96 dpi (GIF: greyscale palette, no resolution)."""
+    if fmt not in _BIG:
+        from PIL import Image
+        w, h = BIG_PX[fmt]
+        if fmt == "GIF":
+            im = Image.frombytes("L", (w, h), hashlib.shake_256(b"C15 big " + fmt.encode()).digest(w * h))
+        else:
+            im = Image.frombytes("RGB", (w, h), hashlib.shake_256(b"C15 big " + fmt.encode()).digest(w * h * 3))
+        buf = io.BytesIO()
+        kw = {} if fmt == "GIF" else {"dpi": (96, 96)}
+        if fmt == "JPEG":
+            kw["quality"] = 95
+        im.save(buf, fmt, **kw)
+        b = buf.getvalue()
+        if len(b) < BIG_MIN or R.sniff(b) != fmt:
+            raise HarnessError("big %s image: %d bytes, sniffed %s" % (fmt, len(b), R.sniff(b)))
+        _BIG[fmt] = b
+    return _BIG[fmt]
+
+
+def _stream_content(fmt, content):
+    if content == "big":
+        return _big_image(fmt)
+    return F.make_image(fmt, (5, 3), dpi=None if fmt == "GIF" else 96, color=7)
+
+
+class _NamedBytesIO(io.BytesIO):
+    """BytesIO that can carry attributes (.name)."""
+
+
+class _Minimal(object):
+    """The bare protocol: read / seek / tell over private bytes; no name, fileno, getvalue, close, ..."""
+    __slots__ = ("_b",)
+
+    def __init__(self, blob):
+        self._b = io.BytesIO(blob)
+
+    def read(self, n=-1):
+        return self._b.read(n)
+
+    def seek(self, pos, whence=0):
+        return self._b.seek(pos, whence)
+
+    def tell(self):
+        return self._b.tell()
+
+
+def _write_pieces(f, blob):
+    for i in range(0, len(blob), PIECE):
+        f.write(blob[i:i + PIECE])
+
+
+def _make_file_like(kind, cur, fmt, blob):
+    """(file-like holding `blob` with the cursor at position `cur`, closer | None, path of the disk file that must NOT
+    yet hold the content | None)."""
+    import tempfile
+    pos = _cursor_pos(cur, len(blob))
+    ext = CANON_EXT[fmt]
+    closer = disk = None
+
+    def reposition(f):      # 'end' = just written; otherwise rewound and read up to the cursor
+        if cur != "end":
+            f.seek(0)
+            f.read(pos)
+
+    if kind == "bytesio":
+        src = io.BytesIO()
+        src.write(blob)
+        reposition(src)
+    elif kind == "file-rb":
+        src = closer = open(_write_file("cursor." + ext, blob), "rb")
+        src.read(pos)
+    elif kind in ("file-w+b-unflushed", "file-w+b-flushed"):
+        p = os.path.join(_scratch(), "written." + ext)
+        src = closer = open(p, "w+b")
+        _write_pieces(src, blob)
+        if kind.endswith("-flushed"):
+            src.flush()
+            reposition(src)
+        else:
+            disk = p
+    elif kind == "file-r+b-overwritten-unflushed":
+        old = F.make_image(fmt, (2, 2), dpi=None if fmt == "GIF" else 96, color=3)
+        if len(old) > len(blob) or blob.startswith(old) or R.sniff(old) != fmt:
+            raise HarnessError("previous content of the overwritten file is unsuitable (%d vs %d bytes)" % (len(old), len(blob)))
+        p = _write_file("overwritten." + ext, old)
+        src = closer = open(p, "r+b")
+        _write_pieces(src, blob)
+        disk = p
+    elif kind in ("tempfile-unflushed", "tempfile-flushed"):
+        src = closer = tempfile.NamedTemporaryFile(dir=_scratch(), suffix="." + ext)
+        _write_pieces(src, blob)
+        if kind.endswith("-flushed"):
+            src.flush()
+            reposition(src)
+        else:
+            disk = src.name
+    elif kind == "spooled":
+        src = closer = tempfile.SpooledTemporaryFile(max_size=SPOOL_MAX, dir=_scratch())
+        _write_pieces(src, blob)
+        reposition(src)
+    elif kind == "misnamed-bytesio":
+        ofmt = FORMATS[(FORMATS.index(fmt) + 1) % len(FORMATS)]
+        other = _write_file("elsewhere." + CANON_EXT[ofmt], F.make_image(ofmt, (3, 2), dpi=None if ofmt == "GIF" else 72, color=11))
+        src = _NamedBytesIO()
+        src.write(blob)
+        src.name = other
+        reposition(src)
+    elif kind == "minimal":
+        src = _Minimal(blob)
+        src.seek(pos)
+    else:
+        raise KeyError(kind)
+    if src.tell() != pos:
+        raise HarnessError("cursor of the prepared %s is %d, wanted %d" % (kind, src.tell(), pos))
+    if disk is not None:
+        # vacuity guard: the point of these kinds is that the disk does NOT hold the content yet
+        on_disk = F.read_bytes(disk)
+        if on_disk == blob or (len(blob) >= BIG_MIN and not 0 < len(on_disk) < len(blob)):
+            raise HarnessError("%s: %d of %d bytes are on disk at hand-over - the case is vacuous" % (
+                kind, len(on_disk), len(blob)))
+    return src, closer, disk
 
 
 def e2s_case(part, case):
     from pptx.enum.shapes import PROG_ID
     fmt, cur, kind, api = case["fmt"], case["cursor"], case["stream"], case["api"]
-    blob = F.make_image(fmt, (5, 3), dpi=None if fmt == "GIF" else 96, color=7)
+    content = case.get("content", "small")
+    blob = _stream_content(fmt, content)
     pos = _cursor_pos(cur, len(blob))
 
     def viol(rule, attrs, what):
-        sig = "C15|%s|stream-cursor|api=%s|cursor=%s%s" % (rule, api, cur, "".join("|" + a for a in attrs))
+        sig = "C15|%s|stream-cursor|api=%s|cursor=%s%s%s" % (
+            rule, api, cur, "" if kind in PLAIN_KINDS else "|file-like=" + kind, "".join("|" + a for a in attrs))
         rp = dict(case)
         rp["signature"] = sig
-        part.violation(sig, "%s (%d bytes) handed to %s as a %s with the cursor at %d (%s): %s" % (
-            fmt, len(blob), api, kind, pos, cur, what), rp)
+        part.violation(sig, "%s (%s, %d bytes) handed to %s as a %s with the cursor at %d (%s): %s" % (
+            fmt, content, len(blob), api, kind, pos, cur, what), rp)
 
     part.count("evaluations", 2)
-    part.add("nontrivial", ("e2s", fmt, cur, kind, api))
+    part.add("nontrivial", ("e2s", fmt, cur, kind, api, content))
     prs = F.open_prs()
     lay = _pic_layout(prs)
     slides = [prs.slides.add_slide(lay), prs.slides.add_slide(lay)]
-    closer = None
-    if kind == "bytesio":
-        src = io.BytesIO()
-        src.write(blob)             # just written: the cursor is at the end
-        if cur != "end":
-            src.seek(0)
-            src.read(pos)           # partly read
-    else:
-        src = closer = open(_write_file("cursor." + CANON_EXT[fmt], blob), "rb")
-        src.read(pos)
-    if src.tell() != pos:
-        raise HarnessError("cursor of the prepared stream is %d, wanted %d" % (src.tell(), pos))
+    src, closer, disk = _make_file_like(kind, cur, fmt, blob)
     made = []   # (slide idx, shape id, shape kind, shape | None)
     try:
         for call, s in enumerate(slides, 1):
@@ -699,10 +867,11 @@ def e2s_case(part, case):
                     k = "ole"
             except Exception as e:  # noqa: BLE001
                 viol("op-raised", ["call=%d" % call, type(e).__name__], "call %d raised %s" % (
-                    call, re.sub(r" at 0x[0-9a-f]+", "", repr(e))))
+                    call, re.sub(r" at 0x[0-9a-f]+", "", re.sub(r"name='[^']*'", "name=...", repr(e)))))
                 part.outcome("stream_cursor", "raised:" + type(e).__name__)
                 continue
             part.outcome("stream_cursor", "ok:%s:%s" % (api, "first" if call == 1 else "same-object-again"))
+            part.outcome("file_like", "ok:%s:%s" % (kind, content))
             made.append((call - 1, sh.shape_id, k, sh))
             if k != "ole":
                 try:
@@ -713,6 +882,17 @@ def e2s_case(part, case):
                 if got != blob:
                     viol("blob", ["call=%d" % call], "the shape's image blob (%d bytes) is not the content of the stream (%d bytes)" % (
                         len(got), len(blob)))
+        # the reference "content of the stream" is what the object itself returns from position 0 (harness check;
+        # a library that closed the caller's object is not this property's business)
+        try:
+            src.seek(0)
+            now = src.read()
+        except ValueError:
+            now = None
+            part.outcome("file_like", "closed-by-the-library:" + kind)
+        if now is not None and now != blob:
+            raise HarnessError("%s/%s/%s: the stream returns %d bytes from position 0, the model has %d" % (
+                kind, cur, content, len(now), len(blob)))
     finally:
         if closer is not None:
             closer.close()
@@ -1343,8 +1523,11 @@ def run(ctx):
     rows, sweep_closed = _sweep_rows(thorough)
     fanout(ctx, _sweep_worker, ctx.rotate(rows), chunk_size=1 if not thorough else None)
     cursor = _cursor_space()
-    if len(cursor) != len(FORMATS) * len(CURSORS) * len(STREAM_KINDS) * len(STREAM_APIS):
-        raise HarnessError("stream-cursor generator size %d" % len(cursor))
+    if len(cursor) != _cursor_closed_form() or len(cursor) != 5 * 45 * 2 * 4:
+        raise HarnessError("file-like generator size %d != closed form %d (documented: 1800)" % (
+            len(cursor), _cursor_closed_form()))
+    for fmt in FORMATS:
+        _big_image(fmt)     # generated once, before the workers are forked
     fanout(ctx, _cursor_worker, ctx.rotate(cursor))
     corpus, corpus_decks, corpus_pairs = _corpus_space()
     fanout(ctx, _corpus_worker, ctx.rotate(corpus), chunk_size=2)
@@ -1370,8 +1553,9 @@ def run(ctx):
                                  "rows": len(rows), "evaluations": sweep_closed,
                                  "sizes_that_are_a_whole_number_of_EMU": "%d of %d (rows of the dpi alphabet)" % (
                                      integral, common_axes)},
-        "stream_cursor": {"formats": FORMATS, "cursor": CURSORS, "file_like": STREAM_KINDS, "api": STREAM_APIS,
-                          "calls_per_case_with_the_same_object": 2, "cases": len(cursor)},
+        "stream_cursor": {"formats": FORMATS, "file_like_and_admissible_cursors": {k: c for k, c in FILE_LIKES},
+                          "content": {"small": "5x3 px", "big": {f: len(_big_image(f)) for f in FORMATS}},
+                          "api": STREAM_APIS, "calls_per_case_with_the_same_object": 2, "cases": len(cursor)},
         "images_already_in_corpus_decks": {"decks": corpus_decks, "deck_image_pairs": corpus_pairs,
                                            "hand_over": ["stream", "path"], "deck": ["as opened", "re-opened first"],
                                            "additions_per_case": 3, "cases": len(corpus)}}
@@ -1407,11 +1591,11 @@ def replay(data):
                 return what
         return None
     for kind, fn, keys in (("nsweep", nsweep_row, ("kind", "fmt", "dpi", "n")),
-                           ("e2s", e2s_case, ("kind", "fmt", "cursor", "stream", "api")),
+                           ("e2s", e2s_case, ("kind", "fmt", "cursor", "stream", "api", "content")),
                            ("e2c", e2c_case, ("kind", "deck", "member", "via", "reopen"))):
         if data.get("kind") == kind:
             part = Partial()
-            fn(part, {k: data[k] for k in keys})
+            fn(part, {k: data[k] for k in keys if k in data})
             for sig, what, _ in part.violations:
                 if sig == data["signature"]:
                     return what
